@@ -78,16 +78,16 @@ Section Proofs.
   Notation verify := (verify_data_signature sig_valid).
 
   (** every supplied signature belongs to a registered key and is valid *)
-  Definition keys_policy (ck : cred_keys) (d : DATA) (cs : amap SIG) : Prop :=
+  Definition keys_policy (ck : cred_keys) (d : DATA) (cs : cred_sigs SIG) : Prop :=
     forall ki s, In (ki, s) cs -> exists pk, lookup ki (ck_keys ck) = Some pk /\ sig_valid pk d s = true.
 
   (** every supplied credential is registered, meets its threshold, and satisfies [keys_policy] *)
-  Definition creds_policy (a : access) (d : DATA) (sm : amap (amap SIG)) : Prop :=
+  Definition creds_policy (a : access) (d : DATA) (sm : sig_map SIG) : Prop :=
     forall ci cs, In (ci, cs) sm ->
       exists ck, lookup ci (as_creds a) = Some ck /\ ck_threshold ck <= len cs /\ keys_policy ck d cs.
 
   (** the threshold policy *)
-  Definition policy (a : access) (d : DATA) (sm : amap (amap SIG)) : Prop :=
+  Definition policy (a : access) (d : DATA) (sm : sig_map SIG) : Prop :=
     as_threshold a <= len sm /\ creds_policy a d sm.
 
   Lemma verify_keys_iff : forall ck d cs, verify_keys ck d cs = true <-> keys_policy ck d cs.
@@ -129,14 +129,14 @@ Section Proofs.
 
   Lemma verify_iff_policy_l : forall a d sm, verify a d sm = true <-> policy a d sm.
   Proof.
-    intros a d sm. unfold Auth.verify_data_signature, policy, sig_map, cred_sigs.
+    intros a d sm. unfold Auth.verify_data_signature, policy.
     destruct (N.ltb_spec (len sm) (as_threshold a)) as [Hlt|Hge].
     - split; [discriminate|]. intros [H _]. lia.
     - rewrite verify_creds_iff. tauto.
   Qed.
 
   (** The same policy in "map" vocabulary for well-formed (BTreeMap) signature maps. *)
-  Definition policy_map (a : access) (d : DATA) (sm : amap (amap SIG)) : Prop :=
+  Definition policy_map (a : access) (d : DATA) (sm : sig_map SIG) : Prop :=
     as_threshold a <= len sm /\
     forall ci cs, lookup ci sm = Some cs ->
       exists ck, lookup ci (as_creds a) = Some ck /\ ck_threshold ck <= len cs /\
@@ -274,7 +274,7 @@ Section Proofs.
         * unfold sign_cred. rewrite len_map, len_firstn; [lia|exact Htc].
         * intros ki s Hk. unfold sign_cred in Hk. apply in_map_iff in Hk as [[ki' sk] [Heq' Hk]].
           cbn [fst snd] in Heq'. inversion Heq'; subst. apply In_firstn in Hk.
-          exists (pub sk). split; [|apply sign_correct].
+          exists (pub sk). split; [|apply sign_correct]. cbn [ck_keys].
           rewrite (lookup_map_snd pub). rewrite (wf_map_In_lookup _ _ _ Hwfc Hk). reflexivity.
   Qed.
 
@@ -369,7 +369,7 @@ Section Proofs.
         * inversion H; subst. destruct Hin as [Heq|Hin]; [inversion Heq; auto|right; right; exact Hin].
         * destruct (insert k v m) as [r b'] eqn:E. inversion H; subst.
           destruct Hin as [Heq|Hin]; [right; left; exact Heq|].
-          destruct (IH r b' eq_refl k0 v0 Hin) as [?|?]; [left; assumption|right; right; assumption].
+          destruct (IH _ _ eq_refl k0 v0 Hin) as [?|?]; [left; assumption|right; right; assumption].
   Qed.
 
   Lemma insert_len : forall {V} k (v : V) m m', insert k v m = (m', false) -> len m' = len m + 1.
